@@ -564,7 +564,9 @@ def prove_checker_lemmas(res, module, units):
     from pysym import framework as F
     before_inc = len(res.inconclusive)
     n0 = (res.obligations, res.discharged)
-    recs = F.run_units(res, module, units)
+    import os
+    # the lemma phase has its own time budget: a lemma that is not finished is not proved (the checker is then inlined)
+    recs = F.run_units(res, module, units, budget_s=int(os.environ.get('CCT_VERIF_LEMMA_BUDGET_S', 900)))
     by = {}
     for r in recs:
         if 'unit' in r:
